@@ -153,7 +153,10 @@ L(str) == [dg |-> FALSE, n |-> 0, s |-> str]
 D(num) == [dg |-> TRUE, n |-> num, s |-> ""]
 NameSeq == << <<L("beta_"), D(2)>>, <<L("beta_"), D(10)>>, <<L("theta_"), D(1)>>, <<L("theta_"), D(2)>>, <<L("theta_"), D(1), L("_"), D(10)>>,
               <<L("theta_"), D(1), L("_"), D(2)>>, <<L("beta_"), D(10), L("_"), D(1)>>, <<L("x")>>, <<L("x"), D(3), L("y"), D(12)>>, <<L("x"), D(3), L("y"), D(5)>>,
-              <<D(7), L("a")>>, <<D(12)>>, <<L("beta_"), D(10), L("_"), D(10)>>, <<L("theta_"), D(10), L("_"), D(2)>>, <<D(7), L("a"), D(100)>>, <<D(7), L("a"), D(20)>> >>
+              <<D(7), L("a")>>, <<D(12)>>, <<L("beta_"), D(10), L("_"), D(10)>>, <<L("theta_"), D(10), L("_"), D(2)>>, <<D(7), L("a"), D(100)>>, <<D(7), L("a"), D(20)>>,
+              \* other separators in front of the digits: a hyphen is not a sign, a bracket not part of the number
+              <<L("beta-"), D(2)>>, <<L("beta-"), D(10)>>, <<L("q["), D(2), L("]")>>, <<L("q["), D(10), L("]")>>, <<L("p."), D(3)>>, <<L("p."), D(12)>>,
+              <<L("w-"), D(3), L("-"), D(20)>>, <<L("w-"), D(3), L("-"), D(4)>> >>
 \* the key (re.split on digit groups): letter groups at odd positions (possibly ""), numbers at even positions
 KeyOf(name) == (IF name[1].dg THEN <<L("")>> ELSE <<>>) \o name \o (IF name[Len(name)].dg THEN <<L("")>> ELSE <<>>)
 KeysAlternate == \A k \in 1..Len(NameSeq) : LET key == KeyOf(NameSeq[k]) IN \A i \in 1..Len(key) : key[i].dg = (i % 2 = 0)
